@@ -3,6 +3,8 @@ package main
 import (
 	"encoding/json"
 	"fmt"
+	"go/types"
+	"golang.org/x/tools/go/ssa"
 	"os"
 	"sort"
 	"strconv"
@@ -286,6 +288,74 @@ func RuleRegistry(r *Report, c *Codec, dirs []string, rules aspectSet) {
 				wantS := strings.Join(want[code], " ")
 				r.Check(have == wantS, "L7", key, c.P.Pos(l.Pos), have, fmt.Sprintf("layout is [%s], protocol says [%s]", have, wantS))
 			}
+		}
+		// L6 (lookup): the dispatcher itself, walked with its lookup in line (a map, an array, a sorted slice
+		// searched by bisection ...): every accepting path has pinned the function-code byte to ONE value and hands
+		// the decoder a fresh value of the type registered for that value; every registered code has such a path
+		if rules["L6"] {
+			byKey := map[int64]string{}
+			for _, e := range reg.Entries {
+				byKey[e.Key] = e.Type
+			}
+			w := NewWalker(c.P)
+			w.LoopFuel = 8
+			w.MaxPaths = 4000
+			w.Inline = inlineHelpers([]*ssa.Package{pkgOf(fn)}, func(f *ssa.Function) bool {
+				return f == fn || (f.Object() != nil && f.Object().Exported())
+			})
+			bufName := fn.Params[0].Name()
+			reached := map[int64]bool{}
+			badL := ""
+			for _, pa := range w.Walk(fn, []*Term{{Op: "param", Name: bufName, Typ: fn.Params[0].Type()}}, nil) {
+				if pa.Outcome == "truncated" {
+					badL = "the dispatcher's lookup was not followed to its end (" + pa.Detail + ")"
+					continue
+				}
+				if pa.Outcome != "return" || len(pa.Results) != 2 {
+					continue
+				}
+				var dec *Event
+				for i := range pa.Events {
+					e := &pa.Events[i]
+					if e.Kind == "call" && strings.HasPrefix(e.Name, "codec.Unmarshal") && len(e.Args) >= 2 {
+						dec = e
+					}
+				}
+				if dec == nil {
+					continue // rejected before decoding
+				}
+				b1, has := pa.State.Ints[bufName+"[1]"]
+				if !has || len(b1) != 1 || b1[0].Lo != b1[0].Hi {
+					badL = "a message reaches the decoder on a path that has not pinned its function code to one value: " + b1.String()
+					continue
+				}
+				k := b1[0].Lo
+				v := dec.Args[1]
+				for v != nil && v.Op == "iface" && len(v.Args) == 1 {
+					v = v.Args[0]
+				}
+				got := ""
+				if v != nil && v.Op == "ptr" && v.Cell != nil && !v.Cell.Sym && v.Cell.Typ != nil {
+					if nt, ok := types.Unalias(v.Cell.Typ).(*types.Named); ok && nt.Obj().Pkg() != nil {
+						got = relPkg(nt.Obj().Pkg().Path()) + "." + nt.Obj().Name()
+					}
+				}
+				wantT, registered := byKey[k]
+				switch {
+				case !registered:
+					badL = fmt.Sprintf("function code 0x%02x is not in the table but reaches the decoder", k)
+				case got != wantT:
+					badL = fmt.Sprintf("function code 0x%02x is decoded into %s, the table registers %s for it", k, got, wantT)
+				default:
+					reached[k] = true
+				}
+			}
+			for k := range byKey {
+				if !reached[k] && badL == "" {
+					badL = fmt.Sprintf("no path of the dispatcher decodes function code 0x%02x into the type registered for it (the lookup does not find the entry)", k)
+				}
+			}
+			r.Check(badL == "", "L6", dir+":lookup", c.P.Pos(fn.Pos()), fmt.Sprintf("%d codes reach their registered type", len(reached)), badL)
 		}
 		if rules["L6"] {
 			for code := range want {
